@@ -36,6 +36,8 @@ type route struct {
 const prelude = `class O { public $p = null; public $q = 0; }
 class H { public $p = null; public function get() { return $this->p; } }
 function idf($x) { return $x; }
+function bumpr(&$x) { $x = 90; return 0; }
+function bumpn(&$x) { $x = 94; return 0; }
 class SP { public static $o1 = null; public static $q1 = null; public static $q2 = null; public static $q3 = null; }
 function snapx($tag, $vals) { echo $tag; foreach ($vals as $v) { echo "|", json_encode($v), "~", serialize($v); } echo "\n"; return 0; }
 `
@@ -469,8 +471,8 @@ func (k kase) build() built {
 			b.models = append(b.models, "")
 		}
 		if expr {
-			if strings.HasPrefix(src, "unset(") {
-				return built{} // unset is a statement, not an expression
+			if strings.HasPrefix(src, "unset(") || strings.HasPrefix(src, "foreach") || strings.Contains(src, "; ") {
+				return built{} // a statement / several statements, not one expression
 			}
 			sb.WriteString(strings.TrimSuffix(src, ";") + ",\n")
 		} else {
